@@ -47,6 +47,10 @@ import (
 
 const c16Cid = "c16dev"
 
+// every wait is a poll for a definite event; the bound only ends a genuine hang and is
+// generous so that a heavily loaded machine cannot turn slowness into a finding
+const c16Patience = 40 * time.Second
+
 type c16Action struct {
 	Op    string      `json:"op"`
 	K     int         `json:"k"`
@@ -183,7 +187,7 @@ func (s *c16Store) fire() bool {
 	select {
 	case s.ch <- map[string]*string{k: nil}:
 		return true
-	case <-time.After(3 * time.Second):
+	case <-time.After(c16Patience):
 		return false
 	}
 }
@@ -208,7 +212,7 @@ type c16Run struct {
 }
 
 func c16Wait(cond func() bool) bool {
-	deadline := time.Now().Add(3 * time.Second)
+	deadline := time.Now().Add(c16Patience)
 	for i := 0; ; i++ {
 		if cond() {
 			return true
@@ -256,7 +260,7 @@ func (r *c16Run) isConn(c *Client, k int) bool {
 }
 
 func c16ReadUntil(sock net.Conn, want func(packets.ControlPacket) bool, onPublish func(*packets.PublishPacket)) string {
-	sock.SetReadDeadline(time.Now().Add(3 * time.Second))
+	sock.SetReadDeadline(time.Now().Add(c16Patience))
 	defer sock.SetReadDeadline(time.Time{})
 	for {
 		p, err := packets.ReadPacket(sock)
@@ -310,7 +314,7 @@ func (r *c16Run) do(a c16Action) (bool, int, string) {
 		r.conns[a.K] = hc
 		r.mu.Unlock()
 		old := r.registered()
-		sock, err := net.DialTimeout("tcp", r.addr, 3*time.Second)
+		sock, err := net.DialTimeout("tcp", r.addr, c16Patience)
 		if err != nil {
 			return false, -1, "dial"
 		}
@@ -431,7 +435,12 @@ func (r *c16Run) do(a c16Action) (bool, int, string) {
 					return false
 				}
 			}
-			return c16Handlers() <= int(atomic.LoadInt32(&r.live))
+			// read the expected number FIRST: a CONNECT racing with this teardown (par) adds
+			// its handler before it is counted as live, never the other way round; taking the
+			// goroutine dump first and `live` afterwards let this return while the old
+			// connection's handler was still running (seen under load)
+			live := int(atomic.LoadInt32(&r.live))
+			return c16Handlers() <= live
 		})
 		if tc != nil {
 			tc.SetLinger(0)
@@ -778,5 +787,5 @@ func c16Gen(r *verifh.Rand, i int) interface{} {
 }
 
 func TestVerifC16(t *testing.T) {
-	verifh.Run(t, c16Gen, c16Exec, 30*time.Second)
+	verifh.Run(t, c16Gen, c16Exec, 180*time.Second)
 }
